@@ -35,7 +35,10 @@ THEOREMS = [P + n for n in (
     'list_stays_list', 'dict_to_list_spec', 'second_save_refused', 'save_twice_keeps_first',
     'pkl_append_keeps_first',
     # objects after arbitrary histories over the operation alphabets of C10 / C11
-    'roundtrip_after_c10_history', 'roundtrip_after_c11_history')]
+    'roundtrip_after_c10_history', 'roundtrip_after_c11_history',
+    # round 4: a path handed over as pathlib.Path / os.PathLike / bytes (the guard tests str only)
+    'no_overwrite_guard_pathlike', 'existing_path_never_replaced', 'pkl_path_exact',
+    'autodetect_str_only')]
 RULE = ('one PRNG; a case = 1-3 objects of the five kinds (RDMs, Dataset / DatasetBase / TemporalDataset, 5 model '
         'classes, Result from constructor or 5 evaluators; sizes 1-13, values incl. NaN/inf/-0; descriptor values: '
         'str / unicode / empty / long str, int / float / bool / None, numpy scalars and small dtypes, list / tuple / '
@@ -43,7 +46,9 @@ RULE = ('one PRNG; a case = 1-3 objects of the five kinds (RDMs, Dataset / Datas
         'with None) in every descriptor position, dicts nested two deep, absent measure) after 0-3 structural '
         'operations, then 2-8 save/load operations (hdf5|pkl or save\'s defaults, path with 19 name endings | '
         'named handle | memory handle, overwrite on/off, fresh|existing, second saves into a used handle, '
-        'load with / without file_type). Non-trivial: at least one successful load that is compared; '
+        'load with / without file_type; every path handed over, per operation, as str | pathlib.Path | another '
+        'os.PathLike object | bytes, also the same file as str in one call and as Path in the next; after every '
+        'save on a path the file is read back with h5py / pickle and compared with what it held before). Non-trivial: at least one successful load that is compared; '
         'distinct = distinct (object specs, operation list)')
 BRANCHES = ['kind:rdms', 'kind:dataset', 'kind:temporal', 'kind:model', 'kind:result',
             'ft:hdf5', 'ft:pkl', 'target:path', 'target:named', 'target:mem',
@@ -59,7 +64,14 @@ BRANCHES = ['kind:rdms', 'kind:dataset', 'kind:temporal', 'kind:model', 'kind:re
             'result:evaluator', 'result:ctor', 'result:postset', 'result:variances-none',
             'result:models>=11',
             'model:Model', 'model:ModelFixed', 'model:ModelSelect', 'model:ModelWeighted',
-            'model:ModelInterpolate']
+            'model:ModelInterpolate',
+            # round 4: path targets that are no str
+            'via:Path', 'via:PathLike', 'via:bytes', 'via:mixed', 'via:nonstr:load', 'via:nonstr:autodetect',
+            'via:nonstr:hdf5', 'via:nonstr:pkl', 'via:nonstr:fresh', 'via:nonstr:existing+overwrite',
+            'via:nonstr:existing-overwrite', 'via:Path:existing-overwrite', 'via:PathLike:existing-overwrite',
+            'via:bytes:existing-overwrite', 'via:nonstr:existing-other-kind', 'load:missing-then-save']
+BRANCHES += ['via:nonstr:fresh:' + k for k in ('rdms', 'dataset', 'model', 'result')] \
+    + ['via:nonstr:existing-overwrite:' + k for k in ('rdms', 'dataset', 'model', 'result')]
 ASSUMPTIONS = [
     'strings contain no NUL character (h5py rejects them in attributes, numpy strips trailing NULs in fixed-width '
     'arrays); integers fit int64; an array-like list does not mix bare numbers with strings (numpy would stringify the '
@@ -72,12 +84,18 @@ ASSUMPTIONS = [
     'a model built on an RDMs object holds at least one RDM (Model.to_dict tests the truth value of '
     'rdm_obj, i.e. len(rdms) > 0; an empty model is saved without its RDMs)',
     'file_type is "hdf5" or "pkl" (save() with any other string writes nothing and raises nothing)',
+    'a path target is a str or a pathlib.Path (what util.file_io.remove_file documents) or, for HDF5, any '
+    'os.PathLike; a bytes path is something only h5py accepts: it is generated for HDF5 saves / loads without '
+    'overwrite-on-existing and judged for "an existing file is never replaced or changed" and "what was saved '
+    'reads back"; load_* without file_type recognises names of str targets only (as coded)',
     'second saves into a used open handle without overwrite (outside the property; the model states what h5py / '
     'pickle do) are generated for sessions of plain objects only, see gen_case',
 ]
 TRUSTED_EXTRA = [
     'h5py: a group is a finite map from names to datasets/groups plus string attributes; what '
-    'is written is what is read; File(path, "a") creates a missing file',
+    'is written is what is read; File(path, "a") creates a missing file and opens an existing one without '
+    'touching it; creating a dataset / group whose name is taken raises and writes nothing (this, not the '
+    'ValueError guard, is what refuses a second save through a pathlib.Path)',
     'pickle: load(dump(d)) == d for dictionaries of str / numbers / numpy arrays / lists',
     'CPython str.encode("utf-8") / bytes.decode("utf-8") are inverse (model: String.toUTF8 / fromUTF8?)',
     'listing order of dictionary keys / HDF5 members is unobservable',
@@ -484,6 +502,26 @@ def gen_case(rng):
             targets.append({'path': False, 'id': i, 'mem': True})
     holds = {}      # target index -> (kind, file type) the generator expects to be in the file
     ops = []
+    touched = set()     # targets some save was already aimed at (the file may exist)
+    # some sessions hand every path over as one kind of object, some mix, most use plain str
+    r = rng.random()
+    via_pool = ['str'] if r < 0.55 else [rng.choice(['Path', 'PathLike', 'bytes'])] if r < 0.7 \
+        else ['str', 'Path', 'Path', 'PathLike', 'bytes']
+
+    def via_for(op, ti):
+        """how the path is handed over for this operation (a per-operation choice: the same file
+        may be addressed as a str in one call and as a pathlib.Path in the next).  A bytes path is
+        something only h5py accepts: HDF5, and never together with overwrite on a file that may
+        exist (remove_file and pickle know str / Path only, see ASSUMPTIONS)"""
+        if not op['target']['path']:
+            return
+        v = rng.choice(via_pool)
+        if v == 'bytes' and ((op.get('ft') or ('hdf5' if op['do'] == 'save' else None)) != 'hdf5'
+                             or (op['do'] == 'save' and op.get('overwrite') and ti in touched)):
+            v = 'Path'
+        if v != 'str':
+            op['via'] = v
+
     for _ in range(rng.randint(2, 8)):
         ti = rng.randrange(len(targets))
         t = targets[ti]
@@ -493,10 +531,12 @@ def gen_case(rng):
             # names the other one or nothing (then an error is due)
             auto = t['path'] and rng.random() < (0.5 if name_type(t['name']) == ft else 0.1)
             ops.append({'do': 'load', 'kind': kind, 'target': t, 'ft': None if auto else ft})
+            via_for(ops[-1], ti)
             continue
         if ti not in holds and rng.random() < 0.06:
             ops.append({'do': 'load', 'kind': rng.choice(kinds), 'target': t,
                         'ft': rng.choice(['hdf5', 'pkl'])})
+            via_for(ops[-1], ti)
             continue
         oi = rng.randrange(len(objs))
         if t['path'] and name_type(t['name']) and rng.random() < 0.85:
@@ -512,6 +552,8 @@ def gen_case(rng):
             del op['ft']
         if not ov and rng.random() < 0.15:
             del op['overwrite']
+        via_for(op, ti)
+        touched.add(ti)
         ops.append(op)
         blocked = ti in holds and not ov and ft == 'hdf5'
         appended = ti in holds and not ov and ft == 'pkl' and not t['path']
@@ -524,11 +566,67 @@ def gen_case(rng):
                 ops.append({'do': 'load', 'kind': kk, 'target': t, 'ft': ft})
     for ti, (kind, ft) in holds.items():       # what does every file hold in the end?
         ops.append({'do': 'load', 'kind': kind, 'target': targets[ti], 'ft': ft})
+        if rng.random() < 0.5:
+            via_for(ops[-1], ti)
     return {'objs': objs, 'ops': ops}
 
 
+def gen_pathlike(rng):
+    """directed sessions for path targets that are no `str` (pathlib.Path, an os.PathLike object, a
+    bytes path): every kind, HDF5: fresh save, read back, a second save without overwrite on the
+    now existing file (must fail and leave the file as it is), read back, [overwrite, read back];
+    the same file addressed as str and as Path in turn; pickle through a Path"""
+    kinds = ('rdms', 'dataset', 'temporal', 'model', 'result')
+    for kind in kinds:
+        for via in ('Path', 'PathLike', 'bytes'):
+            a, b = gen_obj(rng, kind), gen_obj(rng, kind)
+            t = {'path': True, 'id': 0, 'name': rng.choice(NAMES_H5 + NAMES_OTHER)}
+            ops = [{'do': 'save', 'obj': 0, 'target': t, 'ft': 'hdf5', 'overwrite': False, 'via': via},
+                   {'do': 'load', 'kind': a['kind'], 'target': t, 'ft': 'hdf5', 'via': via},
+                   {'do': 'save', 'obj': 1, 'target': t, 'ft': 'hdf5', 'overwrite': False, 'via': via},
+                   {'do': 'load', 'kind': a['kind'], 'target': t, 'ft': 'hdf5',
+                    'via': rng.choice([via, 'str'])}]
+            if rng.random() < 0.3:
+                del ops[2]['overwrite'], ops[2]['ft']         # the defaults of save()
+            if via == 'Path':
+                ops += [{'do': 'save', 'obj': 1, 'target': t, 'ft': 'hdf5', 'overwrite': True, 'via': via},
+                        {'do': 'load', 'kind': a['kind'], 'target': t, 'ft': 'hdf5', 'via': via}]
+            yield {'objs': [a, b], 'ops': ops}
+    # one file, two ways of naming it
+    for kind in kinds:
+        first, second = rng.choice([('str', 'Path'), ('Path', 'str'), ('bytes', 'Path'), ('Path', 'PathLike')])
+        a, b = gen_obj(rng, kind), gen_obj(rng, kind)
+        t = {'path': True, 'id': 0, 'name': '.h5'}
+        yield {'objs': [a, b], 'ops': [
+            {'do': 'save', 'obj': 0, 'target': t, 'ft': 'hdf5', 'overwrite': False, 'via': first},
+            {'do': 'save', 'obj': 1, 'target': t, 'ft': 'hdf5', 'overwrite': False, 'via': second},
+            {'do': 'load', 'kind': a['kind'], 'target': t, 'ft': 'hdf5', 'via': second},
+            {'do': 'load', 'kind': a['kind'], 'target': t, 'ft': None, 'via': first}]}
+    # reading a path that does not exist fails and leaves nothing behind: the save that follows is
+    # a save to a fresh path
+    for kind in kinds:
+        a = gen_obj(rng, kind)
+        ft = rng.choice(['hdf5', 'hdf5', 'pkl'])
+        t = {'path': True, 'id': 0, 'name': '.h5' if ft == 'hdf5' else '.pkl'}
+        v = rng.choice(['str', 'str', 'Path'])
+        yield {'objs': [a], 'ops': [
+            {'do': 'load', 'kind': a['kind'], 'target': t, 'ft': ft, 'via': v},
+            {'do': 'save', 'obj': 0, 'target': t, 'ft': ft, 'overwrite': False},
+            {'do': 'load', 'kind': a['kind'], 'target': t, 'ft': ft}]}
+    # pickle through a path object: fresh, read back, saved again (a pickle path is always rewritten)
+    for kind in kinds:
+        via = rng.choice(['Path', 'Path', 'PathLike'])
+        a, b = gen_obj(rng, kind), gen_obj(rng, kind)
+        t = {'path': True, 'id': 0, 'name': '.pkl'}
+        yield {'objs': [a, b], 'ops': [
+            {'do': 'save', 'obj': 0, 'target': t, 'ft': 'pkl', 'overwrite': False, 'via': via},
+            {'do': 'load', 'kind': a['kind'], 'target': t, 'ft': 'pkl', 'via': via},
+            {'do': 'save', 'obj': 1, 'target': t, 'ft': 'pkl', 'overwrite': rng.random() < 0.5, 'via': via},
+            {'do': 'load', 'kind': a['kind'], 'target': t, 'ft': 'pkl', 'via': 'str'}]}
+
+
 def generate(rng, tier):
-    n = 170 if tier == 'quick' else 3500
+    n = 160 if tier == 'quick' else 3500
     # a few directed sessions first: every kind through both formats and the guard
     for kind in ('rdms', 'dataset', 'temporal', 'model', 'result'):
         for ft, ext in (('hdf5', 'h5'), ('pkl', 'pkl')):
@@ -565,6 +663,8 @@ def generate(rng, tier):
         yield {'objs': [o], 'ops': [{'do': 'save', 'obj': 0, 'target': t, 'ft': ft, 'overwrite': True},
                                     {'do': 'load', 'kind': o['kind'], 'target': t, 'ft': None},
                                     {'do': 'load', 'kind': o['kind'], 'target': t, 'ft': ft}]}
+    for _ in range(1 if tier == 'quick' else 8):
+        yield from gen_pathlike(rng)
     for _ in range(n):
         yield gen_case(rng)
 
@@ -587,15 +687,15 @@ def run_impl(case):
     res = []
     for op, o in zip(case['ops'], out):
         if op['do'] == 'save':
-            res.append({'err': o['err'], 'pure': o['pure']})
+            res.append({'err': o['err'], 'pure': o['pure'], 'file': o.get('file')})
         elif 'err' in o:
-            res.append({'err': o['err']})
+            res.append({'err': o['err'], 'file': o.get('file')})
         else:
             try:
                 w = L.wire(L.attrs(op['kind'], o['loaded']))
-                res.append({'obj': w, 'beh': L.behaviour(op['kind'], o['loaded'])})
+                res.append({'obj': w, 'beh': L.behaviour(op['kind'], o['loaded']), 'file': o.get('file')})
             except L.Unsupported as exc:
-                res.append({'err': 'Unrepresentable: ' + str(exc)})
+                res.append({'err': 'Unrepresentable: ' + str(exc), 'file': o.get('file')})
     return {'ops': res, 'orig': before, 'orig_beh': beh}
 
 
@@ -605,7 +705,8 @@ def model_requests(case):
     return [{'op': 'c16.session', 'codec': 'utf8',
              'objs': [{'kind': k, 'obj': L.wire(L.attrs(k, o))} for k, o in zip(kinds, objs)],
              'ops': [dict(op, target={'path': op['target']['path'], 'id': op['target']['id'],
-                                      'name': L._text(L.target_name(op['target']))})
+                                      'name': L._text(L.target_name(op['target'])),
+                                      'via': _via(op)})
                      for op in case['ops']]}]
 
 
@@ -630,7 +731,15 @@ def compare(case, impl, model):
         if op['do'] == 'save':
             if a['pure'] != m['pure']:
                 return f'{tag}: in-memory object changed by save (impl pure={a["pure"]}, model {m["pure"]})'
+            # a save the model says is refused with the file untouched (guard, or h5py's refusal of a
+            # taken member name): the file read back with h5py / pickle is what it was
+            if op['target']['path'] and a.get('file') is not None and m.get('file') is not None \
+                    and (a['file'] == 'same') != (m['file'] == 'same'):
+                return f'{tag}: file on disk {a["file"]} (read back with h5py / pickle), model: {m["file"]}' \
+                       f'{" (refused: " + m_err + ")" if m_err else ""}'
             continue
+        if a.get('file') not in (None, 'same'):
+            return f'{tag}: file on disk {a["file"]} by a load (the model: loading touches no file)'
         if m_err:
             continue
         d = L.canon_diff(L.canon(a['obj']), L.canon(m['obj']), tag)
@@ -709,6 +818,7 @@ def _fail(case, i, symptom, what, observed, expected, op, spec):
         f['ft'] = op.get('ft') if op['do'] == 'load' else _ft(op)
         f['target'] = 'path' if op['target']['path'] else 'mem' if op['target'].get('mem') else 'named'
         f['overwrite'] = op.get('overwrite')
+        f['via'] = _via(op)
     if spec is not None:
         f['kind'] = spec['kind']
         f['how'] = spec.get('how')
@@ -737,7 +847,26 @@ def _fail(case, i, symptom, what, observed, expected, op, spec):
         _has(spec, lambda d: d.get('py') == 'nd' and d.get('dtype') == 'O')
         or ((f['has_nlist'] or f['has_hlist']) and any(
             h and h[0] in ('time_as_observations', 'time_as_channels') for h in (spec.get('history') or []))))
-    if symptom == 'save-error:UnicodeEncodeError':
+    via = f.get('via', 'str')
+    obs = str(observed)
+    if via != 'str' and f.get('ft') == 'pkl' and ("must have a 'write' attribute" in obs
+                                                   or "must have 'read' and 'readline'" in obs):
+        # pickle.dump / pickle.load handed a path object instead of a file (only a `str` is opened);
+        # with overwrite the file was removed before (symptom failed-save-file:replaced)
+        f['defect'] = 'pathlike-target'
+    elif via == 'PathLike' and op.get('overwrite') and symptom == 'overwrite-not-exact' and 'merged' in obs:
+        # remove_file knows str and pathlib.Path only: the file stays and the new members are merged in
+        f['defect'] = 'pathlike-target'
+    elif via == 'PathLike' and op.get('overwrite') \
+            and ('name already exists' in obs or 'file signature not found' in obs) \
+            and symptom.split(':')[0] in ('save-error', 'failed-save-file') and 'replaced' not in symptom:
+        # remove_file knows str and pathlib.Path only: the file stays and h5py refuses the members
+        f['defect'] = 'pathlike-target'
+    elif via != 'str' and symptom == 'guard-file:merged':
+        # the existence guard covers str only: a file holding an object of *another* kind is merged
+        # into (every member it had is still there, unchanged)
+        f['defect'] = 'pathlike-merge'
+    elif symptom == 'save-error:UnicodeEncodeError':
         f['defect'] = 'unicode-array'
     elif symptom in ('save-error:ValueError', 'save-error:TypeError') and f['has_hlist'] \
             and f.get('ft') == 'hdf5' and ('inhomogeneous' in str(observed) or 'sequence' in str(observed)
@@ -764,6 +893,11 @@ def _fail(case, i, symptom, what, observed, expected, op, spec):
     else:
         f['defect'] = 'other'
     return {'what': what, 'where': f'op{i}', 'observed': observed, 'expected': expected, 'features': f}
+
+
+def _via(op):
+    """how a path target is handed over: 'str' (default) | 'Path' | 'PathLike' | 'bytes'"""
+    return (op.get('via') or 'str') if op['target']['path'] else 'str'
 
 
 def _ft(op):
@@ -794,6 +928,28 @@ def oracle(case):
             if d:
                 return _fail(case, i, 'mutated', f'save changed the in-memory {kinds[j]}', d,
                              'unchanged', op, spec)
+            # the file itself, read back with h5py / pickle before and after the call (any way of
+            # handing the path over): an existing file is never replaced or changed unless
+            # overwrite is requested (HDF5), nor by a save that fails
+            rel = o.get('file')
+            if t['path'] and o.get('existed') and rel not in (None, 'same'):
+                if _ft(op) == 'hdf5' and not _ov(op):
+                    return _fail(case, i, 'guard-file:' + rel,
+                                 f'existing file {rel} by an HDF5 save without overwrite',
+                                 f'file {rel}; save ' + (f'raised {o["err"]}' if o['err'] else 'reported success'),
+                                 'refusal, file unchanged', op, spec)
+                if o['err']:
+                    return _fail(case, i, 'failed-save-file:' + rel, f'existing file {rel} by a save that failed',
+                                 f'file {rel}; {o["err"]}', 'file unchanged', op, spec)
+            if t['path'] and o.get('exact') is False:
+                return _fail(case, i, 'overwrite-not-exact',
+                             'after overwrite=True the file does not hold exactly the new object',
+                             f'file {rel}: differs from a fresh save of the same object', 'exactly the new object',
+                             op, spec)
+            if t['path'] and _via(op) == 'bytes' and (_ft(op) == 'pkl' or (_ov(op) and o.get('existed'))):
+                # outside the input space (ASSUMPTIONS): only the safety half above is judged
+                holds[key] = ('unspecified', {})
+                continue
             if _ft(op) == 'hdf5' and t['path'] and cur is not None and not _ov(op):
                 if not o['err']:
                     return _fail(case, i, 'guard', 'existing HDF5 path replaced without overwrite',
@@ -819,16 +975,22 @@ def oracle(case):
                 # pickle appended behind the first one / a file of the other type: the property is silent
                 holds[key] = ('unspecified', {})
             continue
+        if o.get('file') not in (None, 'same'):
+            return _fail(case, i, 'load-file:' + o['file'], f'a load left the file {o["file"]}',
+                         f'file {o["file"]}' + (f'; {o["err"]}' if 'err' in o else ''), 'file untouched', op,
+                         None)
         cur = holds.get(key)
         if cur is None or cur[0] == 'unspecified':
             continue
-        ft = op.get('ft') or (name_type(L.target_name(t)) if t['path'] else None)
+        ft = op.get('ft') or (name_type(L.target_name(t)) if t['path'] and _via(op) == 'str' else None)
         if ft != cur[0]:
             continue                                        # wrong-type load: only an error is due
         j = cur[1].get(op['kind'])
         if j is None:
             continue
         spec = case['objs'][j]
+        if 'err' in o and _via(op) == 'bytes' and ft == 'pkl':
+            continue                                        # outside the input space (ASSUMPTIONS)
         if 'err' in o:
             exc = o['err'].split(':')[0]
             return _fail(case, i, 'load-error:' + exc, f'reading back a saved object fails with {exc}',
@@ -942,10 +1104,39 @@ def features(case, impl):
                 br.add('value:inf')
     seen = set()
     last_ft = {}
+    vias, last_kind = {}, {}
+    missing_loaded = set()
     for i, op in enumerate(case['ops']):
         t = op['target']
         key = (t['path'], t['id'])
         br.add('target:path' if t['path'] else 'target:mem' if t.get('mem') else 'target:named')
+        via = _via(op)
+        if via != 'str':
+            br.add('via:' + via)
+            vias.setdefault(key, set())
+            if op['do'] == 'load':
+                br.add('via:nonstr:load')
+                if op.get('ft') is None:
+                    br.add('via:nonstr:autodetect')
+            else:
+                br.add('via:nonstr:' + _ft(op))
+                if key not in seen:
+                    br.add('via:nonstr:fresh')
+                    br.add('via:nonstr:fresh:' + case['objs'][op['obj']]['kind'])
+                elif _ov(op):
+                    br.add('via:nonstr:existing+overwrite')
+                elif _ft(op) == 'hdf5':
+                    br.add('via:nonstr:existing-overwrite')
+                    br.add('via:' + via + ':existing-overwrite')
+                    br.add('via:nonstr:existing-overwrite:' + case['objs'][op['obj']]['kind'])
+                    if last_kind.get(key) not in (None, case['objs'][op['obj']]['kind']):
+                        br.add('via:nonstr:existing-other-kind')
+        if t['path']:
+            vias.setdefault(key, set()).add(via)
+            if len(vias[key]) > 1 and 'str' in vias[key]:
+                br.add('via:mixed')
+        if op['do'] == 'save':
+            last_kind.setdefault(key, case['objs'][op['obj']]['kind'])
         nm = L.target_name(t) if t['path'] else None
         if nm is not None and nm.endswith('hdf5'):
             br.add('name:hdf5-ending')
@@ -964,12 +1155,16 @@ def features(case, impl):
                 br.add('save:default-args')
             if key not in seen:
                 br.add('save:fresh')
+                if key in missing_loaded:
+                    br.add('load:missing-then-save')
             else:
                 br.add('save:existing+overwrite' if _ov(op) else 'save:existing-overwrite')
                 if not _ov(op) and t['path'] and _ft(op) == 'hdf5':
                     br.add('guard:hdf5-path-exists')
             seen.add(key)
         else:
+            if t['path'] and key not in seen:
+                missing_loaded.add(key)
             if op.get('ft') is None:
                 br.add('load:autodetect')
             if impl and 'err' in impl['ops'][i]:
